@@ -97,7 +97,7 @@ func pathToReturnAvoiding(from ssa.Instruction, done func(ssa.Instruction) bool,
 	}
 	visited := map[key]bool{}
 	stack := []state{{from.Block(), instrIndex(from) + 1, []*ssa.BasicBlock{from.Block()}}}
-	root := from.Parent()
+	_ = from.Parent()
 	for len(stack) > 0 {
 		st := stack[len(stack)-1]
 		stack = stack[:len(stack)-1]
@@ -120,7 +120,7 @@ func pathToReturnAvoiding(from ssa.Instruction, done func(ssa.Instruction) bool,
 				break
 			}
 			if _, ok := in.(*ssa.Return); ok {
-				if c := helperCall(fn); c != nil && fn != root {
+				if c := helperCall(fn); c != nil {
 					// back to the caller, right after the call
 					stack = append(stack, state{c.Block(), instrIndex(c) + 1, append(append([]*ssa.BasicBlock(nil), st.path...), c.Block())})
 					ended = true
